@@ -99,11 +99,17 @@ fn sized_b<T: Copy + Tr + 'static>(v: T) {
     let u = UniqueArc::new(v);
     let _ = UniqueArc::into_inner(u);
     all_freed(i + 2);
+    // UniqueArc::new([v]) -> unsize to a slice (unsize crate) -> shareable -> drop: one block, released once, as requested
+    let u = UniqueArc::new([v]);
+    let us: UniqueArc<[T]> = unsize::CoerceUnsize::unsize(u, unsize::Coercion::to_slice());
+    assert!(us.len() == 1 && n_live() == 1);
+    drop(us.shareable());
+    all_freed(i + 3);
     // Arc::new_uninit -> assume_init -> unsize coercion to dyn (unsize crate) -> drop
     let mut a = Arc::<MaybeUninit<T>>::new_uninit();
     unsafe { (a.as_mut_ptr() as *mut T).write(v) };
     let a = unsafe { a.assume_init() };
-    check_sized(&a, i + 2);
+    check_sized(&a, i + 3);
     if align_of::<T>() <= 8 {
         let d: Arc<dyn Tr> = unsize::CoerceUnsize::unsize(a, unsafe { unsize::Coercion::new({
             fn c<'a, T: Tr + 'a>(p: *const T) -> *const (dyn Tr + 'a) { p }
@@ -113,7 +119,7 @@ fn sized_b<T: Copy + Tr + 'static>(v: T) {
     } else {
         drop(a);
     }
-    all_freed(i + 3);
+    all_freed(i + 4);
 }
 
 macro_rules! sized {
